@@ -15,7 +15,7 @@ ENGINES = [
      "kind_free_text": "TLA+ model of the time-series storage and npz off-loading; configuration product enumerated by TLC and run on the real code"},
     {"name": "addressing", "path": "spec/Addressing.tla spec/Trace_Addressing.tla vh/addrdrv.py vh/netbuild.py", "serves_properties": ["C10"],
      "kind_free_text": "TLA+ model of slot allocation; address tables of real Systems validated by TLC"},
-    {"name": "codegen", "path": "spec/Codegen.tla spec/Scen_Codegen.tla spec/Trace_Codegen.tla spec/EqBinding.tla vh/codegendrv.py vh/codegen_step.py vh/eqdrv.py",
+    {"name": "codegen", "path": "spec/Codegen.tla spec/Scen_Codegen.tla spec/Trace_Codegen.tla spec/EqBinding.tla spec/CodegenConc.tla spec/MC_CodegenConc.tla vh/codegendrv.py vh/codegen_step.py vh/eqdrv.py",
      "serves_properties": ["C02"],
      "kind_free_text": "TLA+ model of the generated-code staleness protocol, sequences replayed on a scratch pycode directory; declared "
                        "equation strings evaluated independently against the executed generated functions on a TLC-enumerated lattice"},
@@ -27,17 +27,17 @@ ENGINES = [
      "kind_free_text": "TLA+ model of configuration channel precedence; channel combinations replayed on real Systems"},
     {"name": "solvercache", "path": "spec/SolverCache.tla spec/Scen_Solver.tla spec/Trace_SolverCache.tla vh/solverdrv.py", "serves_properties": ["C16"],
      "kind_free_text": "TLA+ model of the sparse-solver wrappers' caching protocol; call sequences replayed on the real wrappers"},
-    {"name": "discrete", "path": "spec/Discrete.tla spec/Scen_Discrete.tla vh/discdrv.py", "serves_properties": ["C09"],
+    {"name": "discrete", "path": "spec/Discrete.tla spec/Scen_Discrete.tla spec/ShuntSw.tla spec/MC_ShuntSw.tla spec/Scen_ShuntSw.tla vh/discdrv.py", "serves_properties": ["C09"],
      "kind_free_text": "definitions of discrete components in TLA+; lattices and histories enumerated by TLC with prescribed outputs"},
     {"name": "eigreduce", "path": "spec/EigReduce.tla spec/Trace_Eig.tla spec/Rat.tla vh/eigdrv.py", "serves_properties": ["C08"],
      "kind_free_text": "exact rational reduction and characteristic polynomials in TLA+, evaluated on the real EIG routines"},
     {"name": "blocks", "path": "spec/Blocks.tla spec/Rat.tla vh/blockdrv.py", "serves_properties": ["C18"],
      "kind_free_text": "documented block transfer functions in TLA+ over exact rationals, verified on extracted realisations"},
-    {"name": "acnetwork", "path": "spec/ACNetwork.tla spec/Scen_ACNetwork.tla spec/NewtonPF.tla spec/Trace_PF.tla vh/acdrv.py vh/pfdrv.py vh/aclattice.py",
+    {"name": "acnetwork", "path": "spec/ACNetwork.tla spec/Scen_ACNetwork.tla spec/NewtonPF.tla spec/Trace_PF.tla vh/acdrv.py vh/pfdrv.py vh/aclattice.py vh/ybus.py vh/jacdrv.py vh/srcread.py",
      "serves_properties": ["C01", "C03"], "kind_free_text": "exact power balance and Jacobian in TLA+ on a lattice; Newton loop model"},
     {"name": "inithandover", "path": "spec/InitHandover.tla spec/Scen_InitHandover.tla spec/Trace_Init.tla vh/initdrv.py", "serves_properties": ["C05"],
      "kind_free_text": "TLA+ model of the PF -> dynamics hand-over; scenarios and stock cases initialised and validated by TLC"},
-    {"name": "caseio", "path": "spec/CaseIO.tla spec/Trace_CaseIO.tla vh/iodrv.py", "serves_properties": ["C13"],
+    {"name": "caseio", "path": "spec/CaseIO.tla spec/Trace_CaseIO.tla vh/iodrv.py vh/srcread.py", "serves_properties": ["C13"],
      "kind_free_text": "TLA+ model of value normalisation across formats; round trips of real cases validated by TLC"},
     {"name": "connectivity", "path": "spec/Connectivity.tla spec/Trace_Connectivity.tla spec/Scen_Connectivity.tla vh/conndrv.py vh/netbuild.py",
      "serves_properties": ["C12"], "kind_free_text": "graph definitions in TLA+ evaluated by TLC on logged graphs of real Systems; ConnMan model-checked"},
